@@ -210,7 +210,7 @@ Print Assumptions c12_read_and_write_values_agree.
 Theorem c12_every_exported_method_is_modelled :
   db_methods_problem = false /\
   forall m a, In (m, a) db_methods -> (exists cl, call_name cl = m) /\ access_of m = a.
-Proof. exact (conj (proj2 gen_methods_covered) every_db_method_modelled). Qed.
+Proof. exact every_exported_method_modelled_and_extracted. Qed.
 Print Assumptions c12_every_exported_method_is_modelled.
 
 (** Whatever any of these methods sends -- the EXPLAIN of a statement included -- is confined to every
@@ -247,7 +247,7 @@ Theorem c12_derived_handles_keep_their_limits :
   forall steps x, xwf x ->
     incl (enforced_limits (x_h x)) (enforced_limits (x_h (fst (derive x steps))))
     /\ (forall l, h_shard (x_h x) = Some l -> h_shard (x_h (fst (derive x steps))) = Some l).
-Proof. intros steps x H. exact (proj2 (derive_keeps_limits steps x H)). Qed.
+Proof. exact derive_keeps_limits_only. Qed.
 Print Assumptions c12_derived_handles_keep_their_limits.
 
 Theorem c12_calls_on_derived_handles_confined :
